@@ -147,7 +147,10 @@ theorem schema_filter (e c : Tm) : schema (.node .filter [e, c]) = schema c := r
 theorem schema_order (e c : Tm) : schema (.node .order [e, c]) = schema c := rfl
 theorem schema_limit (l o c : Tm) : schema (.node .limit [l, o, c]) = schema c := rfl
 theorem schema_topn (l o k c : Tm) : schema (.node .topn [l, o, k, c]) = schema c := rfl
-theorem schema_proj (es c : Tm) : schema (.node .proj [es, c]) = listItems es := rfl
+theorem schema_proj (es c : Tm) : schema (.node .proj [es, c]) = schema es := by simp [schema]
+
+/-- … and the schema of an expression list is its items. -/
+theorem schema_list (xs : List Tm) : schema (.node .list xs) = xs := by simp [schema]
 
 /-- `pushdown-proj-order` keeps the root schema. -/
 theorem applyProjOrder_schema (es ks c : Tm) :
